@@ -85,6 +85,10 @@ func scenarios(tier string) []svc.Scenario {
 		{Name: "mark-query-edit-with-converter", Converter: true, Prebuilt: []int{5}, Program: []string{"addtag:mark/m=id:0", "converters:mark/m=conv", "updtag:mark/m=id:1,2", "markdel:mark/m=1"}},
 		// two converters on one tag, both of which die on their first attempt at every stream
 		{Name: "converter-pair-fails-once", Converter: true, Program: []string{"import:P1", "addtag:tag/p=cport:1", "converters:tag/p=convflaky,convflaky2", "import:P3"}},
+		// a tag over a closed id range that imports fill up and pass
+		{Name: "bounded-id-range-tag", Program: []string{"import:P1", "addtag:service/r=id:0:3", "import:P2", "import:P3"}},
+		// a client that has opened the event stream and does not read it while a hundred events are emitted
+		{Name: "stalled-listener", Program: []string{"import:P1", "addtag:tag/p=cport:1", "listen.stall:l1", "storm:tag/p=100", "import:P2", "listen.close:l1"}},
 		{Name: "two-tags", Program: []string{"addtag:tag/p=cport:1", "addtag:tag/d=cdata:foo3", "import:P1", "import:P3"}},
 	}
 	if tier == "thorough" {
